@@ -1,5 +1,5 @@
 //@include prelude/header.rs
-use rustpython_parser::ast::{Expr, Stmt, Keyword, Identifier, Constant, ExceptHandler};
+use rustpython_parser::ast::{Expr, Stmt, Keyword, Identifier, Constant, ExceptHandler, ExprCall};
 use rustpython_parser::text_size::TextRange;
 verus! {
 pub mod pre {
@@ -223,9 +223,89 @@ pub proof fn lemma_ufe_flat(es: Seq<Expr>, o: Seq<Vec<(String, TextRange)>>, k: 
     }
 }
 
+// ---- parametrize(..., indirect=...) ---------------------------------------------------------------------------
+pub open spec fn opt_deref<T>(o: Option<&T>) -> Option<T> { match o { Some(x) => Some(*x), None => None } }
+/// the value of a keyword called `indirect`
+pub open spec fn indirect_kw_fn() -> spec_fn(Keyword) -> Option<Expr> {
+    |kw: Keyword| if kw_is(kw, "indirect"@) { Some(kw.value) } else { None }
+}
+/// "a, b" -> ["a", "b"]: split at ',' and trim (string functions left abstract)
+pub open spec fn param_names_of(s: Seq<char>) -> Seq<Seq<char>> { split_v(s, ',').map_values(|p: Seq<char>| trim_v(p)) }
+/// an element of `indirect=[...]`: a string literal that is one of the parameter names
+pub open spec fn indirect_elt_fn(names: Seq<Seq<char>>) -> spec_fn(Expr) -> Option<(Seq<char>, TextRange)> {
+    |e: Expr| match str_const_r(e) { Some(p) => if names.contains(p.0) { Some(p) } else { None }, None => None }
+}
+pub open spec fn with_range_fn(rg: TextRange) -> spec_fn(Seq<char>) -> (Seq<char>, TextRange) { |n: Seq<char>| (n, rg) }
+/// indirect parametrize: a CALL of `pytest.mark.parametrize` / `mark.parametrize`; the FIRST keyword `indirect`;
+/// the first positional argument must be a string literal "a, b": with `indirect=True` (literal) every name in it
+/// (range: that of the literal), with `indirect=[...]` the listed string literals that are among the names (each
+/// with its own range); anything else: nothing
+pub open spec fn spec_parametrize_indirect(e: &Expr) -> Seq<(Seq<char>, TextRange)> {
+    match e {
+        Expr::Call(c) => if !spec_is_mark(&*c.func, "parametrize"@) { Seq::empty() } else {
+            match first_some(c.keywords@, indirect_kw_fn(), 0) {
+                None => Seq::empty(),
+                Some(ind) => if c.args@.len() == 0 { Seq::empty() } else {
+                    match str_const_r(c.args@[0]) {
+                        None => Seq::empty(),
+                        Some(p) => match ind {
+                            Expr::Constant(k) => if is_true_const(ind) { param_names_of(p.0).map_values(with_range_fn(p.1)) } else { Seq::empty() },
+                            Expr::List(l) => filter_map_spec(l.elts@, indirect_elt_fn(param_names_of(p.0))),
+                            _ => Seq::empty(),
+                        },
+                    }
+                },
+            }
+        },
+        _ => Seq::empty(),
+    }
+}
+pub open spec fn param_post(e: &Expr, r: Seq<(String, TextRange)>) -> bool {
+    match e {
+        Expr::Call(c) => if !spec_is_mark(&*c.func, "parametrize"@) { r.len() == 0 } else {
+            match first_some(c.keywords@, indirect_kw_fn(), 0) {
+                None => r.len() == 0,
+                Some(ind) => if c.args@.len() == 0 { r.len() == 0 } else {
+                    match str_const_r(c.args@[0]) {
+                        None => r.len() == 0,
+                        Some(p) => match ind {
+                            Expr::Constant(k) => if is_true_const(ind) { pairs_v(r) =~= param_names_of(p.0).map_values(with_range_fn(p.1)) } else { r.len() == 0 },
+                            Expr::List(l) => filter_map_post(l.elts@.as_ref(), indirect_elt_fn(param_names_of(p.0)), pair_view_fn(), r),
+                            _ => r.len() == 0,
+                        },
+                    }
+                },
+            }
+        },
+        _ => r.len() == 0,
+    }
+}
+pub proof fn lemma_param_post(e: &Expr, r: Seq<(String, TextRange)>)
+    requires param_post(e, r),
+    ensures pairs_v(r) =~= spec_parametrize_indirect(e),
+{
+    match e {
+        Expr::Call(c) => if spec_is_mark(&*c.func, "parametrize"@) {
+            match first_some(c.keywords@, indirect_kw_fn(), 0) {
+                Some(ind) => if c.args@.len() > 0 {
+                    match str_const_r(c.args@[0]) {
+                        Some(p) => match ind {
+                            Expr::List(l) => { lemma_filter_map_post(l.elts@, indirect_elt_fn(param_names_of(p.0)), pair_view_fn(), r); }
+                            _ => {}
+                        },
+                        None => {}
+                    }
+                },
+                None => {}
+            }
+        },
+        _ => {}
+    }
+}
+
 pub mod decorators {
 use super::*;
-broadcast use axiom_string_to_string;
+broadcast use {axiom_string_to_string, vstd::std_specs::iter::map_postcondition, lemma_lits_contains};
 /*@ extract src/fixtures/decorators.rs is_fixture_decorator
 @tags C03 C12
 @ret r
@@ -309,6 +389,28 @@ broadcast use axiom_string_to_string;
 @sig
     ensures ufe_post(expr, r@),
     decreases expr,
+@*/
+
+/*@ extract src/fixtures/decorators.rs extract_parametrize_indirect_fixtures
+@tags C03
+@ret r
+@rename find_map vp_find_map
+@rename split vp_split
+@rename filter_map vp_filter_map
+@closure 1 |kw: &Keyword| -> (o: Option<&Expr>) ensures opt_deref(o) == indirect_kw_fn()(*kw)
+@closure 2 |a: &Identifier| -> (b: bool) ensures b == (idv(a) == "indirect"@)
+@closure 3 |s: &str| -> (t: &str) ensures t@ == trim_v(s@)
+@closure 4 |name: &str| -> (p: (String, TextRange)) ensures p.0@ == name@, p.1 == param_const.range
+@closure 5 |elt: &Expr| -> (o: Option<(String, TextRange)>) ensures opt_map(o, pair_view_fn()) == indirect_elt_fn(lit_views(param_names@))(*elt)
+@sig
+    ensures param_post(expr, r@),
+@after indirect_value 1
+    proof {
+        assert(find_map_post(call.keywords@.as_ref(), indirect_kw_fn(), opt_deref(indirect_value)));
+        lemma_find_map_post(call.keywords@, indirect_kw_fn(), opt_deref(indirect_value));
+    }
+@after param_names 1
+    proof { assert(lit_views(param_names@) =~= param_names_of(param_str@)); }
 @*/
 } // mod decorators
 
@@ -705,6 +807,186 @@ pub proof fn lemma_yield_agree_handlers(hs: Seq<ExceptHandler>, k: int, li: Seq<
         lemma_yield_agree_handlers(hs, k + 1, li);
     }
 }
+
+// ---- L2 (a): the recognisers accept exactly the documented forms ------------------------------------------
+/// an expression with all trailing call parentheses removed: `f(..)(..)` -> `f`
+pub open spec fn strip_calls(e: &Expr) -> &Expr
+    decreases e
+{
+    match e { Expr::Call(c) => strip_calls(&*c.func), _ => e }
+}
+/// `fixture` | `pytest.fixture` | `pytest_asyncio.fixture`
+pub open spec fn fixture_base_form(e: &Expr) -> bool {
+    match e {
+        Expr::Name(n) => idv(&n.id) == "fixture"@,
+        Expr::Attribute(a) => idv(&a.attr) == "fixture"@ && (match &*a.value {
+            Expr::Name(v) => idv(&v.id) == "pytest"@ || idv(&v.id) == "pytest_asyncio"@,
+            _ => false,
+        }),
+        _ => false,
+    }
+}
+/// `mark.<m>` | `pytest.mark.<m>`
+pub open spec fn mark_base_form(e: &Expr, m: Seq<char>) -> bool {
+    match e {
+        Expr::Attribute(a) => idv(&a.attr) == m && (match &*a.value {
+            Expr::Name(n) => idv(&n.id) == "mark"@,
+            Expr::Attribute(i) => idv(&i.attr) == "mark"@ && (match &*i.value { Expr::Name(n) => idv(&n.id) == "pytest"@, _ => false }),
+            _ => false,
+        }),
+        _ => false,
+    }
+}
+/// accepted = one of the three documented spellings, bare or called -- and, as the recogniser is written, called
+/// ANY number of times: `pytest.fixture()()` and `fixture(scope="module")(f)(g)` are accepted too.  Nothing else is.
+//@tags C03
+pub proof fn lemma_C03_a_fixture_decorator_forms(e: &Expr)
+    ensures spec_is_fixture_decorator(e) == fixture_base_form(strip_calls(e)),
+        !(strip_calls(e) is Call),
+    decreases e
+{
+    match e { Expr::Call(c) => { lemma_C03_a_fixture_decorator_forms(&*c.func); } _ => {} }
+}
+//@tags C03
+pub proof fn lemma_C03_a_mark_forms(e: &Expr, m: Seq<char>)
+    ensures spec_is_mark(e, m) == mark_base_form(strip_calls(e), m),
+    decreases e
+{
+    match e { Expr::Call(c) => { lemma_C03_a_mark_forms(&*c.func, m); } _ => {} }
+}
+/// rejected look-alikes: `fixtures`, `foo.fixture`, `pytest.fixtures`, `pytest.mark.fixture` / `a.b.fixture`
+/// (attribute of an attribute), subscripts, lambdas ...; for marks: `pytest.usefixtures`, `foo.mark.usefixtures`,
+/// `usefixtures` (bare name)
+//@tags C03
+pub proof fn lemma_C03_a_lookalikes_rejected(e: &Expr, m: Seq<char>)
+    ensures
+        (e matches Expr::Name(n) && idv(&n.id) == "fixtures"@) ==> !spec_is_fixture_decorator(e),
+        (e matches Expr::Attribute(a) && idv(&a.attr) == "fixtures"@) ==> !spec_is_fixture_decorator(e),
+        (e matches Expr::Attribute(a) && (*a.value) matches Expr::Name(v) && idv(&v.id) != "pytest"@ && idv(&v.id) != "pytest_asyncio"@)
+            ==> !spec_is_fixture_decorator(e),
+        (e matches Expr::Attribute(a) && !((*a.value) is Name)) ==> !spec_is_fixture_decorator(e),
+        !(e is Name) && !(e is Attribute) && !(e is Call) ==> !spec_is_fixture_decorator(e) && !spec_is_mark(e, m),
+        e is Name ==> !spec_is_mark(e, m),
+        (e matches Expr::Attribute(a) && (*a.value) matches Expr::Name(v) && idv(&v.id) == "pytest"@) ==> !spec_is_mark(e, m),
+        (e matches Expr::Attribute(a) && (*a.value) matches Expr::Attribute(i) && idv(&i.attr) != "mark"@) ==> !spec_is_mark(e, m),
+        (e matches Expr::Attribute(a) && (*a.value) matches Expr::Attribute(i) && (*i.value) matches Expr::Name(v) && idv(&v.id) != "pytest"@)
+            ==> !spec_is_mark(e, m),
+        (e matches Expr::Attribute(a) && idv(&a.attr) != m) ==> !spec_is_mark(e, m),
+{
+    reveal_strlit("fixtures"); reveal_strlit("fixture"); reveal_strlit("pytest"); reveal_strlit("mark");
+    assert("fixtures"@.len() != "fixture"@.len());
+    assert("pytest"@.len() != "mark"@.len());
+}
+
+// ---- L2 (b): keyword extraction ----------------------------------------------------------------------------
+/// name / scope / autouse exist only on a CALLED fixture decorator: a bare `@pytest.fixture` or a call of anything
+/// else yields no name, no scope, autouse false
+//@tags C03
+pub proof fn lemma_C03_b_only_called_fixture_decorators(e: &Expr)
+    ensures
+        !(e is Call) ==> spec_kw(e, kw_str_fn("name"@)) is None && spec_kw(e, kw_scope_fn()) is None && !spec_autouse(e),
+        (e matches Expr::Call(c) && !spec_is_fixture_decorator(&*c.func))
+            ==> spec_kw(e, kw_str_fn("name"@)) is None && spec_kw(e, kw_scope_fn()) is None && !spec_autouse(e),
+{}
+pub proof fn lemma_first_some_remove<T, V>(s: Seq<T>, g: spec_fn(T) -> Option<V>, i: int, k: int)
+    requires 0 <= k <= i < s.len(), g(s[i]) is None,
+    ensures first_some(s, g, k) == first_some(s.remove(i), g, k),
+    decreases s.len() - k
+{
+    let t = s.remove(i);
+    if k < i {
+        assert(t[k] == s[k]);
+        lemma_first_some_remove(s, g, i, k + 1);
+    } else {
+        lemma_first_some_remove_tail(s, g, i, k + 1);
+    }
+}
+pub proof fn lemma_first_some_remove_tail<T, V>(s: Seq<T>, g: spec_fn(T) -> Option<V>, i: int, k: int)
+    requires 0 <= i < k <= s.len(),
+    ensures first_some(s, g, k) == first_some(s.remove(i), g, k - 1),
+    decreases s.len() - k
+{
+    if k < s.len() {
+        assert(s.remove(i)[k - 1] == s[k]);
+        lemma_first_some_remove_tail(s, g, i, k + 1);
+    }
+}
+/// a keyword whose value is not a string literal (a variable, a call, an f-string, a number ...) is ignored: the
+/// result is the one obtained without that keyword; so is a keyword of another name, and a `scope=` literal that
+/// FixtureScope::parse rejects (the search goes on to a later `name=` / `scope=`).  autouse counts only literal True.
+//@tags C03
+pub proof fn lemma_C03_b_nonconstant_keywords_ignored(c: ExprCall, i: int, c2: ExprCall)
+    requires 0 <= i < c.keywords@.len(), c2.func == c.func, c2.keywords@ == c.keywords@.remove(i),
+    ensures
+        str_const(c.keywords@[i].value) is None ==>
+            spec_kw(&Expr::Call(c), kw_str_fn("name"@)) == spec_kw(&Expr::Call(c2), kw_str_fn("name"@))
+            && spec_kw(&Expr::Call(c), kw_scope_fn()) == spec_kw(&Expr::Call(c2), kw_scope_fn()),
+        !kw_is(c.keywords@[i], "name"@) ==> spec_kw(&Expr::Call(c), kw_str_fn("name"@)) == spec_kw(&Expr::Call(c2), kw_str_fn("name"@)),
+        scope_of_value(c.keywords@[i].value) is None ==> spec_kw(&Expr::Call(c), kw_scope_fn()) == spec_kw(&Expr::Call(c2), kw_scope_fn()),
+        !is_true_const(c.keywords@[i].value) ==> spec_autouse(&Expr::Call(c)) == spec_autouse(&Expr::Call(c2)),
+{
+    let ks = c.keywords@;
+    if kw_str_fn("name"@)(ks[i]) is None { lemma_first_some_remove(ks, kw_str_fn("name"@), i, 0); }
+    if kw_scope_fn()(ks[i]) is None { lemma_first_some_remove(ks, kw_scope_fn(), i, 0); }
+    if !is_true_const(ks[i].value) && spec_is_fixture_decorator(&*c.func) {
+        let k2 = c2.keywords@;
+        if spec_autouse(&Expr::Call(c)) {
+            let j = choose|j: int| 0 <= j < ks.len() && kw_is(#[trigger] ks[j], "autouse"@) && is_true_const(ks[j].value);
+            let j2 = if j < i { j } else { j - 1 };
+            assert(k2[j2] == ks[j]);
+        }
+        if spec_autouse(&Expr::Call(c2)) {
+            let j2 = choose|j: int| 0 <= j < k2.len() && kw_is(#[trigger] k2[j], "autouse"@) && is_true_const(k2[j].value);
+            let j = if j2 < i { j2 } else { j2 + 1 };
+            assert(k2[j2] == ks[j]);
+        }
+    }
+}
+/// the FIRST usable `name=` wins (Python itself rejects a repeated keyword)
+//@tags C03
+pub proof fn lemma_C03_b_first_name_wins(c: ExprCall, i: int)
+    requires spec_is_fixture_decorator(&*c.func), 0 <= i < c.keywords@.len(),
+        kw_is(c.keywords@[i], "name"@), str_const(c.keywords@[i].value) is Some,
+        forall|j: int| 0 <= j < i ==> !(kw_is(#[trigger] c.keywords@[j], "name"@) && str_const(c.keywords@[j].value) is Some),
+    ensures spec_kw(&Expr::Call(c), kw_str_fn("name"@)) == str_const(c.keywords@[i].value),
+{
+    lemma_first_some_from(c.keywords@, kw_str_fn("name"@), i, 0);
+}
+
+/// what the yield searches do NOT look at (stated, not hidden): `match` statements, `try ... except*`, function /
+/// class definitions, and a yield that is not an expression statement of its own (`x = yield`, `await (yield)`,
+/// `return (yield)`): such a body is not a generator body for the index and has no yield line
+//@tags C03
+pub proof fn lemma_C03_c_yield_search_domain(s: Stmt, li: Seq<usize>)
+    ensures
+        (s is Match || s is TryStar || s is Assign || s is AnnAssign || s is AugAssign || s is Return
+            || s is FunctionDef || s is AsyncFunctionDef || s is ClassDef) ==> !cy_stmt(s) && fy_stmt(s, li) is None,
+        (s matches Stmt::Expr(x) && !((*x.value) is Yield) && !((*x.value) is YieldFrom)) ==> !cy_stmt(s) && fy_stmt(s, li) is None,
+{}
+
+// ---- vacuity guards: each of these must FAIL ---------------------------------------------------------------
+/// `pytest.mark.fixture` is a fixture decorator
+proof fn canary_mark_fixture_accepted(e: &Expr)
+    requires e matches Expr::Attribute(a) && idv(&a.attr) == "fixture"@ && (*a.value) is Attribute,
+    ensures spec_is_fixture_decorator(e),
+{}
+/// a generator body without a yield line
+proof fn canary_yield_disagree(b: Seq<Stmt>, li: Seq<usize>)
+    requires cy_from(b, 0),
+    ensures fy_from(b, 0, li) is None,
+{ lemma_C03_c_yield_agree(b, li); }
+/// the LAST `name=` wins
+proof fn canary_last_name_wins(c: ExprCall, i: int)
+    requires spec_is_fixture_decorator(&*c.func), 0 <= i < c.keywords@.len(),
+        kw_is(c.keywords@[i], "name"@), str_const(c.keywords@[i].value) is Some,
+        forall|j: int| i < j < c.keywords@.len() ==> !(kw_is(#[trigger] c.keywords@[j], "name"@)),
+    ensures spec_kw(&Expr::Call(c), kw_str_fn("name"@)) == str_const(c.keywords@[i].value),
+{}
+/// the assumed specifications in scope are not contradictory
+proof fn canary_false_from_assumptions(e: &Expr, r: Seq<(String, TextRange)>, b: bool, o: Option<Seq<char>>)
+    requires ufe_post(e, r), autouse_post(e, b), kw_post(e, kw_str_fn("name"@), o),
+    ensures false,
+{}
 
 } // verus!
 fn main() {}
